@@ -8,6 +8,8 @@ for p in sorted(glob.glob(os.path.join(V, 'seeded', '*', 'meta.json'))):
     what = re.sub(r'\s+', ' ', m.get('summary') or m.get('breaks', ''))[:220]
     cl = '; '.join(sorted({re.sub(r' \[.*', '', c) + ' [' + re.sub(r'.*\[(.*?)\].*', r'\1', c)[:40] + ']' for c in m.get('violation_classes', [])[:3]}))
     note = 'initially missed, check strengthened' if m.get('initially_missed') else ''
+    if m.get('obsolete_after_fix'):
+        note += '; detected before the repair %s, which made the change harmless' % m['obsolete_after_fix']
     if not m.get('detected_by_check'):
         note = 'NOT detected' + (': ' + m.get('why_missed', '') if m.get('why_missed') else '')
     rows.append('| %s | %s | %s | %s |' % (m['name'], what.replace('|', '/'), cl.replace('|', '/'), note))
